@@ -12,6 +12,9 @@ STATIC_THEOREMS = [
     'SnapraidVerif.Props.C14.lock_exclusive',
     'SnapraidVerif.Props.C14.second_is_refused',
     'SnapraidVerif.Props.C14.lock_counter_unlink',
+    'SnapraidVerif.Props.C14.zero_size_refused',
+    'SnapraidVerif.Props.C14.zero_rule_ignores_sync_state',
+    'SnapraidVerif.Props.C14.force_zero_proceeds',
 ]
 
 def protected_digest(a):
